@@ -127,7 +127,7 @@ func main() {
 	os.Unsetenv("GOTOOLCHAIN")
 
 	t0 := time.Now()
-	work := filepath.Join(*root, ".work", prop+"-"+*tier)
+	work := filepath.Join(*root, ".work", fmt.Sprintf("%s-%s-%d", prop, *tier, os.Getpid()))
 	os.RemoveAll(work)
 	os.MkdirAll(filepath.Join(work, "smt"), 0o755)
 	evPath := filepath.Join(*root, "evidence", prop+".json")
